@@ -27,7 +27,8 @@ CONSTANTS Idents,      \* thread idents (reusable)
           MaxEvents, MaxDepth, MaxGen,
           TopOnly      \* deviation switch
 
-VARIABLES tps,      \* installed tracepoints (never changes): records [id, kind, file, name, line, span, faulty]
+VARIABLES tps,      \* installed tracepoints: records [id, kind, file, name, line, span, faulty]; changed only by
+                    \*   Reconfigure (a new configuration from the service)
                     \*   faulty: the tracepoint's action always fails (e.g. a malformed log template): no effect of
                     \*   its own, and no effect on the other tracepoints of the location
                     \*   kind "line": file+line;  kind "method": file+name;  span: "none"|"line"|"method"
@@ -168,8 +169,17 @@ EvCatch(t) ==
     /\ exc' = [exc EXCEPT ![t] = FALSE]
     /\ UNCHANGED <<tps, alive, gen, stack, cb, items, acted, invDone, nInv, nEv, last>>
 
+(* the service's configuration changes while the program is in the middle of something (a poll response is       *)
+(* installed by a background thread; in the model: every tracepoint is removed). Work that is already pending     *)
+(* must still be completed.                                                                                      *)
+Reconfigure(T) ==
+    /\ T # tps
+    /\ tps' = T
+    /\ UNCHANGED <<alive, gen, stack, exc, cb, items, acted, invDone, nInv, nEv, last>>
+
 Next ==
-    \E t \in Idents :
+    \/ Reconfigure({})
+    \/ \E t \in Idents :
         \/ ThreadStart(t) \/ ThreadEnd(t)
         \/ \E f \in Fns : EvCall(t, f)
         \/ \E ln \in Lines : EvLine(t, ln)
@@ -178,7 +188,7 @@ Next ==
 Spec == Init /\ [][Next]_vars
 
 ---------------------------------------------------------------------------
-TpById(id) == CHOOSE tp \in tps : tp.id = id
+TpById(id) == CHOOSE tp \in UNION TpSets : tp.id = id
 
 (* C03: every firing is at the tracepoint's own location ... *)
 Placement == \A k \in 1..Len(acted) : Fires(TpById(acted[k].tp), acted[k].ev, acted[k].fn, acted[k].line)
